@@ -64,6 +64,8 @@ def make_pool(darsia, rng):
         P["B"] = darsia.ScalarImage(rs.randint(1, 9, size=(H, W)).astype(float), dimensions=P["dimsB"], name="B")
         P["C"] = darsia.OpticalImage(rs.randint(0, 255, size=(H, W, 3)).astype(np.uint8), color_space="RGB", dimensions=[0.5 * H, 0.25 * W])
         P["Cf"] = darsia.OpticalImage(rs.rand(H, W, 3).astype(np.float32), color_space="RGB", dimensions=[0.5 * H, 0.25 * W])
+        P["Cd"] = darsia.OpticalImage(rs.rand(H, W, 3), color_space="RGB", dimensions=[0.5 * H, 0.25 * W])   # float64 pixels
+        P["C16"] = darsia.OpticalImage(rs.randint(0, 65535, size=(H, W, 3)).astype(np.uint16), color_space="RGB", dimensions=[0.5 * H, 0.25 * W])
         P["S"] = darsia.ScalarImage(rs.randint(1, 9, size=(H, W, 3)).astype(float), series=True, time=[0.0, 1.0, 2.0], dimensions=[0.5 * H, 0.25 * W])
         P["Sone"] = darsia.ScalarImage(rs.randint(1, 9, size=(H, W)).astype(float), dimensions=[0.5 * H, 0.25 * W])
         P["Wt"] = darsia.ScalarImage(rs.randint(1, 4, size=(2 * H, 2 * W)).astype(np.float32), dimensions=[0.5 * H, 0.25 * W], name="weight")
@@ -106,6 +108,14 @@ def registry(darsia):
     add("to_monochromatic_gray", lambda P, r: P["C"].to_monochromatic("gray"))
     add("to_monochromatic_red", lambda P, r: P["Cf"].to_monochromatic("red"))
     add("to_monochromatic_hue", lambda P, r: P["Cf"].to_monochromatic("hue"))
+    # every pixel type of optical images through the colour-space and channel conversions
+    for key in ("C", "Cf", "Cd", "C16"):
+        # (OpenCV converts 16-bit data between RGB and BGR / gray only; the other spaces are for 8-bit and float data)
+        for cs in (("HSV", "BGR", "LAB", "HLS") if key != "C16" else ("BGR",)):
+            add(f"to_trichromatic_{cs}_{key}", lambda P, r, key=key, cs=cs: P[key].to_trichromatic(cs, return_image=True))
+        for ch in (("gray", "red", "hue", "value", "saturation") if key != "C16" else ("gray", "red")):
+            add(f"to_monochromatic_{ch}_{key}", lambda P, r, key=key, ch=ch: P[key].to_monochromatic(ch))
+        add(f"img_as_float32_{key}", lambda P, r, key=key: P[key].img_as(np.float32))
     add("metadata", lambda P, r: P["A"].metadata())
     add("shape_metadata", lambda P, r: P["A"].shape_metadata())
     # extraction
